@@ -894,6 +894,8 @@ def _iter_origin(self, fn, v, seen=None):
     if t == "call":
         name = v[1]
         args = v[2]
+        if name.startswith("core::slice::iter::") and name.endswith("::into_iter") and len(args) == 1:
+            return ("sliceiter", args[0])
         if name.endswith("::into_iter") and len(args) == 1:
             return self.iter_origin(fn, args[0], seen)
         if name.endswith("::{impl#7}::new") and "range" in name and len(args) == 2:
@@ -1357,6 +1359,25 @@ def _loop_bounded(self, fn, H):
             o = self.iter_origin(fn, info["pre"][0])
             if o and o != "same" and o[0] in ("incl", "excl") and o[2][0] == "const":
                 return True
+            if o and o != "same" and o[0] in ("sliceiter", "enum") and _fixed_array_root(an, o[1]):
+                return True
+    return False
+
+
+def _fixed_array_root(an, v):
+    """v is (a sub-slice of) a fixed-size array: its length is bounded by a constant"""
+    for _ in range(6):
+        if not isinstance(v, tuple) or not v:
+            return False
+        tk = an.vtype.get(v)
+        while tk is not None and tk["k"] in ("ref", "ptr"):
+            tk = tk["to"]
+        if tk is not None and tk["k"] == "array":
+            return True
+        if v[0] in ("slice", "slicefrom", "sliceto", "unsize", "ref", "deref", "init", "ptrcast") and len(v) > 1:
+            v = v[1]
+            continue
+        return False
     return False
 
 
